@@ -114,6 +114,16 @@ func newWorld(sc *Scenario) (*world, error) {
 		}
 	}
 	w.prodNext = make([]int, len(sc.Producers))
+	for i := range sc.Frames {
+		for _, op := range sc.Frames[i].Faults {
+			w.faults.Add("damage_"+op.Op+"_stream_leg", 1)
+		}
+	}
+	for i := range sc.Direct {
+		for _, op := range sc.Direct[i].Faults {
+			w.faults.Add("damage_"+op.Op+"_direct_leg", 1)
+		}
+	}
 	return w, nil
 }
 
